@@ -115,7 +115,13 @@ def run(ctx):
         ctx.inst("C15.R1", "%s#only-through-vector" % name, not leak, "after building the vector the arguments are referenced again: %s" % bool(leak), H.loc(a["body"]))
         # empty guard: error when no numbers
         guards = [x for x in rest if x[0] == "when" and x[1] == ("call", "is_empty", N) and x[2][0] == "return" and x[2][1][0] == "ctor" and x[2][1][1] == "Err"]
-        got = [x[1] for x in vals]
+        def push_ctor(t_):
+            # `Number(if c { a } else { b })` is `if c { Number(a) } else { Number(b) }`
+            if isinstance(t_, tuple) and len(t_) == 3 and t_[0] == "ctor" and isinstance(t_[2], tuple) and t_[2] and t_[2][0] == "if" and len(t_[2]) >= 4:
+                i_ = t_[2]
+                return ("if", i_[1], push_ctor(("ctor", t_[1], i_[2])), push_ctor(("ctor", t_[1], i_[3])))
+            return t_
+        got = [push_ctor(x[1]) for x in vals]
         ctx.inst("C15.R3", "%s#reduction" % name, S.verdict(tuple(got), tuple(REDUCTION[name])), "computes %s; documented %s" % ([S.show(v) for v in got], [S.show(v) for v in REDUCTION[name]]), H.loc(a["body"]))
         ctx.inst("C15.R3", "%s#empty-is-error" % name, len(guards) == 1, "`if nums.is_empty() { return Err }` before the reduction: %s" % (len(guards) == 1), H.loc(a["body"]))
     # ---- R10 order statistics are read from the sorted numbers; the result is what the arm computed; nothing is kept between calls
